@@ -72,7 +72,14 @@ def apply_simple_adc(
         / (voltage_max - voltage_min)
     )
 
-    return np.trunc(output).astype(dtype)
+    # Saturated values are set to the full scale (2^bit_resolution - 1) as an exact integer.
+    # With floats, the full scale can be missed because of rounding errors and
+    # it cannot be represented when 'bit_resolution' is higher than 53 bits.
+    is_saturated = signal >= voltage_max
+    digitized = np.trunc(np.where(is_saturated, 0.0, output)).astype(dtype)
+    digitized[is_saturated] = 2**bit_resolution - 1
+
+    return digitized
 
 
 def simple_adc(
